@@ -2,9 +2,11 @@
 (* GEN config for C13/C14/C15: one initial state per case descriptor; Emit prints the case with its
    two abstract documents (materialised by the harness), TLC's verdict MustBreak and a witness. *)
 EXTENDS DiffCases, Json, Randomization
-CONSTANT Sample          \* 0 = whole space, k > 0 = RandomSubset(k, CaseSpace)
+CONSTANTS Sample,         \* 0 = whole space, k > 0 = RandomSubset(k, CaseSpace)
+          WithPairs       \* include the two-edit cases
 VARIABLE c
-Init == c \in (IF Sample = 0 THEN CaseSpace ELSE RandomSubset(Sample, CaseSpace))
+Space == IF WithPairs THEN CaseSpace ELSE CaseSpace \ Leaf2Cases
+Init == c \in (IF Sample = 0 THEN Space ELSE RandomSubset(Sample, Space))
 Next == UNCHANGED c
 Emit ==
   LET ab == CaseAB(c) IN
